@@ -97,6 +97,17 @@ def _cmp_preds(ctx, clause, payload, base_case, other_case, model, reg):
             ctx.violation(clause, "sc", payload, dict(op=op, base=repr(o1.res)[:200], other=repr(o2.res)[:200], maxdiff=d), model, reg)
 
 
+def _warm_up(model):
+    """use a model object once (every operation, on throw-away ratings) before its public parameters are changed"""
+    g = [[model.rating()], [model.rating(), model.rating()], [model.rating()]]
+    model.predict_win(g)
+    model.predict_draw(g)
+    model.predict_rank(g)
+    model.predict_win(g[:2])
+    model.rate([[model.rating()], [model.rating()]])
+    model.rate(g, ranks=[2, 1, 1])
+
+
 def _near_ties(ps):
     s = sorted(ps)
     return any(abs(x - y) <= 1e-11 for x, y in zip(s, s[1:]))
@@ -147,6 +158,7 @@ def probe_sc(ctx, payload):
         from ..attach import observe
 
         m_inpl, t_inpl, kw_inpl = build(dict(cs, cfg=case["cfg"]))
+        _warm_up(m_inpl)  # the object has been USED before its parameters change (lazily cached derived state)
         for attr in ("mu", "sigma", "beta", "tau"):
             setattr(m_inpl, attr, getattr(m_inpl, attr) * f)
         m_ctor, t_ctor, kw_ctor = build(cs)
@@ -159,6 +171,7 @@ def probe_sc(ctx, payload):
                     g2 = None if o2.exc else [(p_.mu, p_.sigma) for t_ in o2.res for p_ in t_]
                 else:
                     m_a, t_a, _ = build(dict(cs, cfg=case["cfg"]))
+                    _warm_up(m_a)
                     for attr in ("mu", "sigma", "beta", "tau"):
                         setattr(m_a, attr, getattr(m_a, attr) * f)
                     m_b, t_b, _ = build(cs)
